@@ -35,11 +35,19 @@ DOT    == 5     \* '.'
 SPACE  == 6     \* ' '
 EACUTE == 7     \* U+00E9 (non-ASCII, lower() leaves it alone)
 COLON  == 8     \* ':'  (only interesting where win is TRUE)
+UEACUTE == 9    \* U+00C9 'E acute' (non-ASCII cased letter: lower() gives U+00E9)
+UIDOT  == 10    \* U+0130 'I with dot above': the one character whose lower() is TWO characters, 'i' U+0307
+LI     == 11    \* 'i'
+CDOT   == 12    \* U+0307 combining dot above (lower() leaves it alone)
 
 Alt(c)      == 3 - c.sep
 IsSepCh(ch) == ch = SLASH \/ ch = BSLASH
-LowerC(ch)  == IF ch = UA THEN LA ELSE ch
-Lower(s)    == [i \in 1..Len(s) |-> LowerC(s[i])]
+\* str.lower(): a per-character map into strings - one character maps to two, so lower-casing can change the length
+LowerS(ch)  == CASE ch = UA -> <<LA>> [] ch = UEACUTE -> <<EACUTE>> [] ch = UIDOT -> <<LI, CDOT>> [] OTHER -> <<ch>>
+RECURSIVE LowerFrom(_, _)
+LowerFrom(s, i) == IF i > Len(s) THEN <<>> ELSE LowerS(s[i]) \o LowerFrom(s, i + 1)
+Lower(s)    == IF \E i \in 1..Len(s) : s[i] = UIDOT THEN LowerFrom(s, 1)
+               ELSE [i \in 1..Len(s) |-> LowerS(s[i])[1]]            \* (no length change: character by character)
 NonEmpty(s) == Len(s) > 0
 
 \* ============================== Part 1: the helpers ==============================
@@ -53,11 +61,12 @@ RStrip(s, x) == SubSeq(s, 1, REnd(s, x, Len(s)))
 LStrip(s, x) == SubSeq(s, LBeg(s, x, 1), Len(s))
 Strip(s, x)  == LStrip(RStrip(s, x), x)
 
-\* normalize_path_separators: alt -> sep, then strip trailing separators unless the path IS the separator
+\* normalize_path_separators: alt -> sep, then strip trailing separators; what is left of a path of separators is the root
 NormSeps(c, p) ==
   IF Len(p) = 0 THEN p
   ELSE LET rp == [i \in 1..Len(p) |-> IF p[i] = Alt(c) THEN c.sep ELSE p[i]]
-       IN IF Len(rp) = 1 /\ rp[1] = c.sep THEN rp ELSE RStrip(rp, c.sep)
+           st == RStrip(rp, c.sep)
+       IN IF Len(st) = 0 THEN <<c.sep>> ELSE st             \* a path made of separators only is the root
 
 RECURSIVE Interleave(_, _)
 Interleave(parts, x) == IF Len(parts) = 1 THEN parts[1] ELSE parts[1] \o <<x>> \o Interleave(Tail(parts), x)
@@ -206,10 +215,10 @@ SpellShape(c, f) ==
           ELSE (IF alt THEN "ALT" ELSE "SEP") \o (IF dbl THEN "_DOUBLED" ELSE "")
                \o (IF n - ln >= 2 THEN "_TRAIL2" ELSE IF n - ln = 1 THEN "_TRAIL" ELSE "")
 
-\* Input class on which the UNCHANGED helpers do not satisfy the folder laws (normalize_path_separators turns a root
-\* written with two or more separators into the empty string): the root re-spelled, with a relative part without
-\* names.  Reported to the maintainers; the cases are generated, executed and judged like all others, the driver
-\* lists their law failures under this stratum tag instead of reporting them (see c13.py, HELD).
+\* A stratum of its own: the root re-spelled, with a relative part without names.  normalize_path_separators used to turn
+\* a root written with two or more separators into the empty string, so the folder laws failed on this input class; it was
+\* held under this tag (c13.py, HELD) until the helper was repaired (a path made of separators only is the root, NormSeps
+\* above).  The tag stays as the name of the stratum; the design runs include the class.
 HeldTag == "ROOT_RESPELLED_EMPTYREL"
 HeldJoin(f, q)       == RootRespelled(f) /\ Comps(q) = <<>>
 HeldReplace(f, q, g) == (RootRespelled(f) \/ RootRespelled(g)) /\ Comps(q) = <<>>
@@ -344,6 +353,7 @@ CaseRule(c, p, o) ==
           /\ Lower(V(o.n1)) = V(o.n0)
           /\ Leaf(Comps(V(o.n1))) = Leaf(Comps(p))
           /\ Front(Comps(V(o.n1))) = Front(Comps(V(o.n0)))
+          /\ Front(Comps(V(o.n1))) = LowerAll(Front(Comps(p)))     \* the folders folded (expected value computed here)
 
 \* ---- binary: every pair (p, q); folder laws on the absolute folder f = join(p) and the relative part q ----
 MatchSymmetric(c, p, q, o) ==
@@ -470,12 +480,13 @@ ReadsS(law) ==
 \* ============================== Part 4: enumeration ==============================
 CONSTANTS Seps, Cases, Wins,     \* which conventions (subsets of {1,2}, BOOLEAN, BOOLEAN)
           Wins2,                 \* conventions of the second side (translation); {} = one-sided run
-          LP, LQ, LR             \* length bounds of vp, vq, vr
+          LP, LQ, LR,            \* length bounds of vp, vq, vr
+          Ext                    \* {} = the standard alphabet; else the alphabet to enumerate (e.g. with UIDOT, UEACUTE)
 
 VARIABLES vc, vc2, vp, vq, vr
 pvars == <<vc, vc2, vp, vq, vr>>
 
-Alpha(cv, cw) == IF cv.win \/ cw.win THEN 1..8 ELSE 1..7
+Alpha(cv, cw) == IF Ext # {} THEN Ext ELSE IF cv.win \/ cw.win THEN 1..8 ELSE 1..7
 OneSided == Wins2 = {}
 
 PathsInit ==
@@ -497,16 +508,14 @@ DesignB == LET o == ObsB(vc, vp, vq) IN \A law \in LawsB : HoldsB(law, vc, vp, v
 DesignT == LET o == ObsT(vc, vp, vq, vr) IN \A law \in LawsT : HoldsT(law, vc, vp, vq, vr, o)
 DesignX == OneSided \/ LET o == ObsX(vc, vc2, vp, vr, vq) IN \A law \in LawsX, side \in {0, 1} : HoldsX(law, side, vc, vc2, vp, vr, vq, o)
 \* folders as spelled: every string vp / vr that is an absolute spelling (raw), and the listed re-spellings of join(vp) /
-\* join(vr), which reach longer strings.  The held input class is left to DesignSHeld (not part of the design runs:
-\* TLC shows the counterexample on request).
-DesignSRaw == LET o == ObsS(vc, vp, vq, vr) IN \A law \in LawsS : HeldS(law, vp, vq, vr) \/ HoldsS(law, vc, vp, vq, vr, o)
+\* join(vr), which reach longer strings
+DesignSRaw == LET o == ObsS(vc, vp, vq, vr) IN \A law \in LawsS : HoldsS(law, vc, vp, vq, vr, o)
 DesignSSpell ==
   \A k \in 0..NSpell :
     LET fs == Spell(vc, Join(vc, <<vp>>), k)
         gs == Spell(vc, Join(vc, <<vr>>), k)
         o  == ObsS(vc, fs, vq, gs)
-    IN \A law \in LawsS : HeldS(law, fs, vq, gs) \/ HoldsS(law, vc, fs, vq, gs, o)
-DesignSHeld == LET o == ObsS(vc, vp, vq, vr) IN \A law \in LawsS : HoldsS(law, vc, vp, vq, vr, o)
+    IN \A law \in LawsS : HoldsS(law, vc, fs, vq, gs, o)
 DesignYRaw == OneSided \/ LET o == ObsY(vc, vc2, vp, vr, vq) IN \A law \in LawsY, side \in {0, 1} : HoldsY(law, side, vc, vc2, vp, vr, vq, o)
 DesignYSpell ==
   OneSided \/ \A k \in 0..NSpell :
